@@ -117,7 +117,7 @@ func ProfileFor(prop string) *Profile {
 		w["create"], w["drop"], w["clear"], w["idxcreate"], w["idxdrop"], w["describe"] = 2.5, 2, 1.2, 1.2, 0.8, 2.5
 		w["put"], w["update"], w["delete"], w["get"], w["scan"], w["query"] = 4, 1.5, 1, 1, 0.7, 0.7
 		w["open"], w["resume"], w["batchw"] = 0.4, 0.8, 0.5
-		w["native"] = 0.5
+		w["native"] = 0.9
 		p.FaultFree = 0
 	case "C19":
 		p.MinClients, p.MaxClients = 1, 1
